@@ -237,6 +237,33 @@ def d4_fifo_and_pairing(ctx):
                     ok2 = ok2 and rets == [want_t]
                     detail += " ; closure returns %s" % [show(x, clf.names) for x in rets]
             ctx.chk.ob("D4", "drain pairs element k of queue, sequences and queue_times, in queue order", ok2, detail, key="D4:drain-zip-order")
+            # what the three drains removed is exactly what is returned: the mapped zip goes straight into the collect that is returned;
+            # no adaptor in between can drop elements (a dropped `Drain` still removes its whole range from the vector)
+            its = sorted(t["f"].get("path", "").rsplit("::", 1)[-1] for (bb, t) in f.calls() if "Iterator::" in t["f"].get("path", "") and not f.blocks[bb]["cleanup"])
+            col = [(bb, t) for (bb, t) in f.calls() if t["f"].get("path", "").endswith("Iterator::collect")]
+            ok3 = its == ["collect", "map", "zip", "zip"] and len(col) == 1 and len(mp) == 1
+            det3 = "iterator calls %s" % its
+            if ok3:
+                cb, ct = col[0]
+                cv = fa.val_operand(ct["args"][0], (cb, len(f.blocks[cb]["stmts"])))
+                mv = fa._val_call(mp[0][1], (mp[0][0], len(f.blocks[mp[0][0]]["stmts"])), 0)
+                from ..expr import strip_old as _so
+                ok3 = _so(cv) == _so(mv)
+                rets = ctx.cfg(f).returns
+                colv = _so(fa._val_call(ct, (cb, len(f.blocks[cb]["stmts"])), 0))
+                outs = []
+                for bi, blk in enumerate(f.blocks):
+                    if blk["cleanup"]:
+                        continue
+                    for si, st_ in enumerate(blk["stmts"]):
+                        if st_["k"] == "assign" and st_["p"]["l"] == 0 and not st_["p"]["proj"]:
+                            outs.append(_so(fa.val_rvalue(st_["rv"], (bi, si))))
+                    tt = blk["term"]
+                    if tt["k"] == "call" and tt["dest"]["l"] == 0 and not tt["dest"]["proj"]:
+                        outs.append(_so(fa._val_call(tt, (bi, len(blk["stmts"])), 0)))
+                ok3 = ok3 and colv in outs and all(o == colv or is_call(o, name_contains="SmallVec") and o[1].endswith("::new") for o in outs)
+                det3 += " ; returned %s" % [show(o, f.names)[:80] for o in outs]
+            ctx.chk.ob("D4", "drain returns everything the three vectors gave up: collect(map(zip(..))) with no element-dropping adaptor, returned as is", ok3, det3, key="D4:drain-returns-all")
     # no other Vec mutator anywhere on these fields
     bad = []
     for fld in VECS:
